@@ -204,6 +204,19 @@ func (r *rewriter) rewrite() bool {
 	if r.needRT {
 		astutil.AddNamedImport(r.pkg.Fset, r.file, "verifrt", rtPath)
 		r.changed = true
+		// statements were rewritten: free-floating comments would be misplaced by the
+		// printer; keep them only if the file carries compiler directives
+		keep := false
+		for _, cg := range r.file.Comments {
+			for _, cm := range cg.List {
+				if strings.HasPrefix(cm.Text, "//go:") && !strings.HasPrefix(cm.Text, "//go:generate") {
+					keep = true
+				}
+			}
+		}
+		if !keep {
+			r.file.Comments = nil
+		}
 	}
 	return r.changed
 }
@@ -224,9 +237,21 @@ func (r *rewriter) pre(c *astutil.Cursor) bool {
 			}
 		}
 	case *ast.SelectStmt:
-		c.Replace(r.rewriteSelect(s))
-		st.Selects++
-		return true // descend into the replacement; its native comm statements are in skip
+		// the communication operations of the cases stay native (the select itself is
+		// rewritten in post-order, after nested statements have been handled)
+		for _, cl := range s.Body.List {
+			cc := cl.(*ast.CommClause)
+			switch cm := cc.Comm.(type) {
+			case *ast.ExprStmt:
+				r.skip[cm.X] = true
+			case *ast.AssignStmt:
+				if len(cm.Rhs) == 1 {
+					r.skip[cm.Rhs[0]] = true
+				}
+			case *ast.SendStmt:
+				r.skip[cm] = true
+			}
+		}
 	}
 	return true
 }
@@ -237,6 +262,9 @@ func (r *rewriter) post(c *astutil.Cursor) bool {
 		return true
 	}
 	switch s := n.(type) {
+	case *ast.SelectStmt:
+		c.Replace(r.rewriteSelect(s))
+		st.Selects++
 	case *ast.GoStmt:
 		c.Replace(r.rewriteGo(s))
 		st.GoStmts++
